@@ -243,6 +243,7 @@ pub fn check_item(it: &Item, c: &Ctx, quick: bool, only: Option<NaiveDateTime>, 
             return;
         }
     };
+    let quick = quick || !it.deep; // depth per item, see c02::Item::deep
     let core = windows::w_core_blocks();
     let small = windows::w_small_blocks();
     let budget: u64 = if quick { 4_000_000 } else { 20_000_000 };
@@ -331,7 +332,7 @@ pub fn run(cfg: &Cfg) -> Outcome {
     }
     o.cov("family_size", json!(items.len()));
     o.cov("full_window_expressions", json!(n_full));
-    o.cov("rule", json!("for every expression × context: every derived instant (P boundaries of the window × {−1min, −1s, 0, +1ms, +1s, +30s, +59.999s, +1min}, every 7th (quick: 97th) minute of six fixed days, 16 instants around and far outside both ends of the supported range) is queried on the real state / is_open / is_closed / is_unknown / next_change and compared with the pointwise oracle P (kind of the run containing t; end of that run, None iff it reaches 10000-01-01); oracle-free relations: next_change > t, < DATE_END, equal for all t of one run. states = instants, transitions = next_change calls; block mode only requires answers beyond the block edge to be no earlier than the edge. next_change walks day by day where selectors give no hint: queries stop for an expression once a deterministic budget of schedule_at calls (H1 counter) is used up (counted)"));
+    o.cov("rule", json!("for every expression × context: every derived instant (P boundaries of the window × {−1min, −1s, 0, +1ms, +1s, +30s, +59.999s, +1min}, every 7th (quick: 97th) minute of six fixed days, 16 instants around and far outside both ends of the supported range) is queried on the real state / is_open / is_closed / is_unknown / next_change and compared with the pointwise oracle P (kind of the run containing t; end of that run, None iff it reaches 10000-01-01); oracle-free relations: next_change > t, < DATE_END, equal for all t of one run. states = instants, transitions = next_change calls; block mode only requires answers beyond the block edge to be no earlier than the edge. next_change walks day by day where selectors give no hint: queries stop for an expression once a deterministic budget of schedule_at calls (H1 counter) is used up (counted). Thorough tier: the quick family is explored at thorough depth (W_core blocks, larger start caps, all pairs, larger budgets); the expressions only the thorough family adds (E1 with two selector kinds, every 5th E2, every 37th E3, the larger shortcut family K) at the quick tier's depth"));
     o.assume("P uses the real schedule_at (consistency property)");
     o
 }
@@ -340,7 +341,7 @@ pub fn replay(cfg: &Cfg, case: &Value) -> Vec<Violation> {
     let mut acc = Acc::new();
     let Some(text) = case.get("expr").and_then(|v| v.as_str()) else { return vec![] };
     let c = ctx::by_name(&cfg.repo, case.get("ctx").and_then(|v| v.as_str()).unwrap_or("empty"));
-    let it = Item { text: text.to_string(), feats: features::of_str(text), full: true };
+    let it = Item { text: text.to_string(), feats: features::of_str(text), full: true, deep: true };
     let t = case.get("t").and_then(|v| v.as_str()).and_then(parse_dt);
     check_item(&it, &c, false, t, &mut acc);
     acc.groups.into_values().flat_map(|g| g.examples).collect()
